@@ -719,7 +719,11 @@ func (e *CrashEnv) CheckImage(ic imageCtx) {
 		if len(sg.Recs) == 0 {
 			continue
 		}
+		// the first message of the file (the segment is rebased or emptied) or a later one (the file keeps its name)
 		victim := sg.Recs[0].Off
+		if len(sg.Recs) > 1 && (ic.si+len(sg.Recs))%2 == 0 {
+			victim = sg.Recs[1+(ic.si%(len(sg.Recs)-1))].Off
+		}
 		if _, ok := exp[victim]; !ok {
 			continue
 		}
@@ -775,6 +779,47 @@ func (e *CrashEnv) CheckImage(ic imageCtx) {
 	if n != len(exp) {
 		fail("continue", "segment files hold %d records, the log %d messages", n, len(exp))
 	}
+	// ... and a later migration (to the version in force: nothing to do; then to the other one) must not bring anything
+	// back that an interrupted migration left lying around
+	for round, v1 := range []bool{e.CurVAt(snap.opi), !e.CurVAt(snap.opi)} {
+		ver := klevdb.V2
+		if v1 {
+			ver = klevdb.V1
+		}
+		if err := klevdb.Migrate(e.Img, opts, ver); err != nil {
+			fail("continue", "Migrate (round %d, to V1=%v) of the recovered and further used log failed: %v", round, v1, err)
+		}
+		mo := e.C.options(v1)
+		l4, err := klevdb.Open(e.Img, mo)
+		if err != nil {
+			fail("continue", "Open after Migrate (round %d) failed: %v", round, err)
+		}
+		got4, err := scanLog(l4)
+		var bad string
+		if err != nil || len(got4) != len(exp) {
+			bad = fmt.Sprintf("reads %v (%v), want %d messages", msgOffsets(got4), err, len(exp))
+		}
+		for _, g := range got4 {
+			if x, ok := exp[g.Offset]; bad == "" && (!ok || !FromMessage(x).Eq(g)) {
+				bad = fmt.Sprintf("returns %+v", FromMessage(g))
+			}
+			if _, gerr := l4.Get(g.Offset); bad == "" && gerr != nil {
+				bad = fmt.Sprintf("Get(%d) fails: %v", g.Offset, gerr)
+			}
+		}
+		for o := int64(0); o < next+1 && bad == ""; o++ {
+			if _, ok := exp[o]; !ok {
+				if g, gerr := l4.Get(o); gerr == nil {
+					bad = fmt.Sprintf("Get(%d) of a deleted offset returns %+v", o, FromMessage(g))
+				}
+			}
+		}
+		_ = l4.Close()
+		if bad != "" {
+			fail("continue", "after recovery, one Delete per segment and Migrate (round %d, to V1=%v) the log %s", round, v1, bad)
+		}
+	}
+	e.St.Inc("images_continued_with_migrations")
 }
 
 type knownSkip struct{}
